@@ -48,7 +48,7 @@ Definition check_mcase (c : mcase) : list nat :=
   let '(m, A, v, acc) := c in
   let g := {| g_params := ["T"]; g_props := [] |} in
   let model := match m with
-               | MMethodParam => method_param_accepts (Some (DGen "T")) [("T", A)] v
+               | MMethodParam => method_param_accepts fixture_sub (Some (DGen "T")) [("T", A)] v
                | MCtorPromoted => ctor_promoted_accepts (Some (DGen "T")) [("T", A)] v
                end in
   let spec := match member_type g [A] (Some (DGen "T")) with
